@@ -103,6 +103,32 @@ def main():
                     dist[kk] = dist.get(kk, 0) + 1
                 if len(samples) < 3 and k is not None:
                     samples.append({"script": [x[:300] for x in lines[:40]], "impl_trace": [x[:300] for x in it[:40]]})
+            # a second family of scripts in another mode (e.g. C19: whole scenarios with the capture on)
+            sec = getattr(mod, "SECOND", None)
+            if sec and not a.replay:
+                runner2 = vlib.Runner(prop, sec["mode"], flavour=sec.get("flavour", "plain"), tag="_2")
+                err2 = runner2.prepare()
+                if err2:
+                    raise RuntimeError("second mode build: " + err2)
+                sc2 = sec["generate"](random.Random(seed * 7919 + 18), tier)
+                m2, i2 = runner2.run_chunked(sc2, chunk=sec.get("chunk", 40))
+                for sid, lines in sc2:
+                    evaluations += 1
+                    mt, it = m2.get(sid), i2.get(sid)
+                    d = vlib.first_diff(mt or [], it or [])
+                    bad = [o for o in sec["oracle"](lines, it or [])]
+                    if d or bad:
+                        what = ("oracle failed on the implementation trace: %s: %s" % bad[0]) if bad else (
+                            "second mode (%s): model and implementation diverge at line %d:\n model: %s\n impl : %s" % (sec["mode"], d[0], str(d[1])[:300], str(d[2])[:300]))
+                        pth = vlib.write_replay(prop, "oracle" if bad else "diverge2",
+                                                "# property %s\n# %s\nBEGIN %s\n%s\nEND\n" % (prop, what.replace("\n", "\n# "), sid, "\n".join(lines)))
+                        if not dist.get("second_mode_reported"):
+                            violations.append((pth, "" if bad else " no-failing-input-found"))
+                            dist["second_mode_reported"] = 1
+                        diverge.append((sid, lines, d)) if d else None
+                    if sec["nontrivial"](lines, it or []) is not None:
+                        nontrivial.add(("2", hash(tuple(it or []))))
+                dist["second_mode_scripts"] = len(sc2)
             # environment independence: the same scripts under other environments must give the same traces
             for (ename, env, extra, prefix) in getattr(mod, "ENVS", []):
                 chunk = getattr(mod, "CHUNK", 400)
